@@ -218,6 +218,9 @@ func runC06(rec *vk.Rec, ci int) {
 			size = r.Range(15000, 30000)
 		}
 		payload := bytes.Repeat([]byte{byte('A' + i%26)}, size)
+		if r.Chance(40) { // incompressible content: what the store keeps is then about as large as the payload
+			payload = r.Bytes(size)
+		}
 		copy(payload, fmt.Sprintf("m%d-", i))
 		ssid := ssidOf(tn.c, lv)
 		m := message.New(ssid, []byte(strings.Join(lv, "/")+"/"), payload)
